@@ -53,3 +53,14 @@ Definition lookup_cmd (t : table) (host : str) (tls : bool) (uri : str) (m : mat
            (globoff : bool) : option cand :=
   let hosts := if globoff then matching_host_noglob t host tls else matching_hosts t host tls in
   first_some (fun h => lookup1c t h uri m) (hosts ++ [[]]).
+
+(* route.NewTableCustom(defs *[]RouteDef) (the custom registry backend, registry/custom/custom.go):
+   the command list arrives as data (decoded JSON, no text and no Parse).  A nil pointer is
+   rejected; otherwise it is the SAME command loop (addRoute / delRoute with its sweeps /
+   weighRoute) and the same final sort of every host's routes as NewTable's.  [None] = nil. *)
+Definition e_no_defs : N := 12.         (* "route: no route definitions" *)
+Definition custom_table (o : option (list cdef)) : outcome table :=
+  match o with
+  | None => Err e_no_defs
+  | Some cs => cmd_table cs
+  end.
